@@ -16,7 +16,7 @@ claim("C01", "exploration", SIM + "; oracle = device-side chain walk at every pu
       "Trusts the reference device core (sim/src/vq.rs), SimHal and the store hooks' placement; sequentially consistent memory at hook granularity.", "6/C01")
 claim("C02", "exploration", SIM + "; observer validates all entries below avail.idx at every driver store",
       "At every store to device-visible queue memory (guarded hook) an observer reads the available index from memory and validates every entry below it; additional monitors: no store after the index store of a submission, no rewrite of an in-flight descriptor or unread ring slot. Sampling of histories; the store points inside each history are all visited.",
-      "Native engine is sequentially consistent at store granularity; memory-model (release/fence) semantics are exercised separately under Miri when that engine is present. Non-coherent DMA not modelled.", "6/C02")
+      "Native engine is sequentially consistent at store granularity; release/fence semantics are decided by the Miri engine (engines/C02.sh: device on a real thread, seeded scheduler, data-race detector), which runs in both tiers. Non-coherent DMA not modelled.", "6/C02")
 claim("C03", "exploration", SIM + "; lock-step reference model of outstanding chains / used FIFO / free count, >65536-submission runs",
       "Reference model checked after every operation (accept/refuse decisions, error values, side-effect freedom of failed polls, byte counts, available_desc, fill-to-capacity probes); dedicated runs exceed 65536 submissions so all 16-bit indices wrap with chains outstanding.",
       "Sampling of histories; completion order chosen by the seeded scheduler.", "6/C03")
@@ -90,7 +90,10 @@ m = {
         "add_only": True,
     },
     "engines": [
-        {"name": "vdsim (native/checked)", "path": "sim", "serves_properties": sorted(CLAIMED), "kind_free_text": "hand-written deterministic simulator: PRNG choice tape, reference virtio device, SimHal ledger, seeded scheduler at transport/store/spin/op points, tape shrinker, replay"},
+        {"name": "vdsim (native/checked)", "path": "sim", "serves_properties": sorted(CLAIMED), "kind_free_text": "hand-written deterministic simulator: PRNG choice tape, reference virtio devices, SimHal ledger, seeded scheduler at transport/store/spin/op points, tape shrinker, replay; built with overflow checks and debug assertions on"},
+        {"name": "vdsim (native/wrapping)", "path": "sim (cargo profile 'wrapping')", "serves_properties": ["C07", "C09", "C11", "C13", "C17"], "kind_free_text": "same simulator and scenarios built without overflow checks / debug assertions (what users ship); run by engines/<id>.sh after the checked engine in both tiers"},
+        {"name": "miri", "path": "sim-miri", "serves_properties": ["C02"], "kind_free_text": "driver thread + real device thread under Miri's seeded scheduler and data-race detector (release/acquire side of C02); engines/C02.sh, 16 seeds quick / 256 thorough"},
+        {"name": "asan", "path": "sim (nightly, -Zsanitizer=address, profile 'wrapping')", "serves_properties": ["C07", "C09"], "kind_free_text": "AddressSanitizer build of the simulator, thorough tier only (engines/C07.sh, engines/C09.sh)"},
     ],
     "checks": [],
     "notes": "All checks: cwd /verif, ./check <id> --tier quick|thorough, honours VERIF_SEED and VERIF_TIER. Replay: ./check replay <file>. Determinism self-test: ./check determinism.",
